@@ -2420,6 +2420,12 @@ class State:
             dealable_cards = tuple(self.get_dealable_cards(len(cards)))
 
             for card in cards:
+                if card and cards.count(card) > 1:
+                    raise ValueError(
+                        f'The card {repr(card)} is dealt more than once.',
+                    )
+
+            for card in cards:
                 if card not in dealable_cards and card:
                     warn(
                         (
@@ -5457,6 +5463,12 @@ class State:
         else:
             status = True
             cards = Card.clean(status_or_hole_cards)
+
+            for card in cards:
+                if card and cards.count(card) > 1:
+                    raise ValueError(
+                        f'The card {repr(card)} is shown more than once.',
+                    )
 
             if len(cards) > len(self.hole_cards[player_index]):
                 raise ValueError('too many cards shown')
